@@ -24,6 +24,15 @@ def nested_and_stop(tier):
             sc["racer-at"], sc["racer"] = int(parts[1]), int(parts[2])
         out.append(sc)
     out.append({"scenario": "c04xl", "hists-file": p, "bound": b - 1, "glib": 0, "nested": 1, "_shards": len(hs), "_nhist": len(hs)})
+    # nested=2: the sink PUMPS THE EVENT LOOP of the logger thread (processEvents) while a backlog is queued: event delivery is re-entered
+    for h in (["AMLLL", "AMLLLL"] if tier == "quick" else ["AMLLL", "AMLLLL", "AMLLLR", "AMLLL 3 2"]):
+        parts = h.split()
+        sc = {"scenario": "c04xh", "hist": parts[0], "bound": b, "glib": 1, "nested": 2}
+        if len(parts) == 3:
+            sc["racer-at"], sc["racer"] = int(parts[1]), int(parts[2])
+        out.append(sc)
+    # a burst far beyond any plausible back-pressure threshold while the worker is held in the sink: no logging call may wait
+    out.append({"scenario": "c03burst", "p": 1, "m": 12000 if tier == "quick" else 70000, "bound": 0, "glib": 1, "_shards": 1})
     return out
 
 
@@ -51,7 +60,9 @@ def run(tier):
              "through a Logger moved to its own thread, entered through processMessage() with the caller's QMessageLogContext, all five message types including fatal; the message object is "
              "created inside the call, so time / steady time must lie inside the producer's call interval and the thread id must be the producer's. Scenarios c04x* with nested=1: operation histories in "
              "which the sink itself logs a message on the logger thread while a backlog is queued, and a second thread logs while a stop delivers queued messages: a call that returned before another "
-             "began is delivered first, no sink is re-entered or entered by two threads; distinct_nontrivial = distinct delivery orders",
+             "began is delivered first, no sink is re-entered or entered by two threads; nested=2: the sink pumps the logger thread's event loop (processEvents) while a backlog is queued; "
+             "c03burst: one producer logs 12 000 (70 000) messages while the worker is held inside the sink - no logging call may sleep or wait for the logger thread (oracle on every sleep and every "
+             "contended lock); distinct_nontrivial = distinct delivery orders",
         assumptions=vsrun.VS_ASSUMPTIONS + ["null and empty C strings are identified (the copy constructor turns nullptr into \"\")"])
 
 
